@@ -359,6 +359,12 @@ type sockets struct {
 	hc  *http.Client
 	url string
 
+	// HTTP/2 (TLS) listener for the same DoH handler, started by the hostile-client phase
+	h2l   net.Listener
+	h2s   *http.Server
+	h2c   *http.Client
+	h2url string
+
 	wd      time.Duration
 	expired int // delivery waits that expired (the transport is then abandoned)
 }
@@ -426,6 +432,7 @@ func (s *sockets) Close() {
 	if s.hc != nil {
 		s.hc.CloseIdleConnections()
 	}
+	s.closeH2()
 }
 
 const deliverWait = 10 * time.Second     // loopback delivery of bytes the handler is known to have returned
